@@ -67,6 +67,12 @@ pub fn check_program(b: &mut Builder, t: &Rc<Term>, p: Place, inputs: &[Rc<RV>],
     let tgt = b.fin(&wrapped.tgt);
     // the tracker comparison re-runs the program: on large input sets (jets) it is taken on a fixed stride
     let trace_stride = (inputs.len() / 256).max(1);
+    if mode == Mode::Semantics && trace_stride > 1 {
+        out.cap("tracker traces on input sets above 256 values (jets on corner grids): every (n/256)-th input is traced; outputs and verdicts are compared on every input");
+    }
+    if mode == Mode::Semantics && t.size() > TRACE_MAX_TERM.load(std::sync::atomic::Ordering::Relaxed) {
+        out.cap("thorough tier: tracker traces for terms of at most 4 nodes; larger terms are judged on output and verdict");
+    }
     for (input_ix, input) in inputs.iter().enumerate() {
         out.transitions += 1;
         let obs = run_on_machine(&prog, input, &wrapped.src, &tgt).map_err(|e| ("exec:unexpected".to_string(), format!("input {input}: {e}")))?;
